@@ -1060,12 +1060,13 @@ example : (apiRun evalInt exWorld [.read exB {}]).2.map outLineC =
 
 /-! ### `C08_write_bytes_history` on the example -/
 
-example : writeBytes exOut false (.plain [(.str "k".toList, .leaf (.int 5))]) =
-    some "k                             5;\n".toList := by decide +kernel
-
-example : (apiRun evalInt exWorld (exOps ++ [.write (.plain [(.str "k".toList, .leaf (.int 5))]) exA ['w'] false])).1.fs.get
-      (resolveSpelled exA) = some (.native "k                             5;\n".toList) :=
-  (C08_write_bytes_history evalInt exOps exWorld _ exA ['w'] false (by decide) (by decide +kernel)).1
+/-- whatever the history did to `plain` (here: read it, twice), overwriting it with any builtin dict `d` leaves the
+    formatter's text of `d`, retyped -/
+example (d : Entries) :
+    (apiRun evalInt exWorld (exOps ++ [.write (.plain d) exA ['w'] false])).1.fs.get (resolveSpelled exA) =
+      some (.native (fmtPlain .native (normEs d))) :=
+  (C08_write_bytes_history evalInt exOps exWorld (.plain d) exA ['w'] false (by decide)
+    (writeBytes_plain exA false d (fl := .native) (by decide +kernel))).1
 
 /-! ### `order=True` is excluded for a reason: the statement without `o.order = false` is false -/
 
